@@ -227,9 +227,9 @@ def _fl_build(p, rule):
 
 
 def _fl_klass(nd, p, rule):
-    if "twin" in nd and set(nd) <= {"twin", "axis", "xshape"}:
+    if "twin" in nd and set(nd) <= {"twin", "axis", "xshape"} and 0 not in p["xshape"]:
         return "twin=second-Flatten-of-same-input"
-    if 0 in p["xshape"] and set(nd) <= {"xshape", "axis", "sym", "symstyle"}:
+    if 0 in p["xshape"] and "xshape" in nd and set(nd) <= {"xshape", "axis", "sym", "symstyle", "twin"}:
         return "xshape=static-size0-dim"
     if nd.get("rt") == "zero":
         keep = {k: v for k, v in nd.items() if k in ("axis", "sym", "rt")}
